@@ -12,14 +12,20 @@ SIZES = {
 }
 
 
+def _n(tier, q, t):
+    return q if tier == "quick" else t
+
+
 def _c01(run, drv, rng, tier):
     n, k = SIZES["C01"][tier]
     props_wire.check_c01(run, drv, rng, n, k)
+    props_wire.check_multifile(run, drv, rng, _n(tier, 10, 200), 2, "C01")
 
 
 def _c02(run, drv, rng, tier):
     n, k = SIZES["C02"][tier]
     props_wire.check_c02(run, drv, rng, n, k)
+    props_wire.check_multifile(run, drv, rng, _n(tier, 10, 200), 2, "C02")
 
 
 def _c05(run, drv, rng, tier):
@@ -52,22 +58,20 @@ def _c08(run, drv, rng, tier):
 
 
 def _c11(run, drv, rng, tier):
-    from . import props_c08
+    from . import props_c08, props_text
+    props_text.check_fixed(run, drv)  # visibility and innermost-wins cases as text (self-reference, wrong-kind shadowing, ...)
     props_c08.check_c11(run, drv, rng, tier)
 
 
 def _c19(run, drv, rng, tier):
     from . import props_c19
+    props_c19.check_go_helpers(run)
     props_c19.check(run, drv, rng, tier)
 
 
 def _c12(run, drv, rng, tier):
     from . import props_c12
     props_c12.check(run, drv, rng, tier)
-
-
-def _n(tier, q, t):
-    return q if tier == "quick" else t
 
 
 def _c16(run, drv, rng, tier):
@@ -105,6 +109,7 @@ def _c17(run, drv, rng, tier):
     from . import props_c17, ties
     ties.tie_cli(run, drv, rng, _n(tier, 30, 600))
     ties.tie_emitted(run, drv, rng, _n(tier, 25, 500))
+    ties.cli_filter_edges(run)
     props_c17.check(run, drv, rng, tier)
 
 
@@ -112,6 +117,7 @@ def _c18(run, drv, rng, tier):
     from . import props_c18, ties
     ties.tie_memo(run, drv, rng, _n(tier, 200, 5000))
     ties.tie_cli(run, drv, rng, _n(tier, 15, 300))
+    ties.determinism_fixed(run)
     props_c18.check(run, drv, rng, tier)
 
 
@@ -345,6 +351,7 @@ PROPS = {
                      "Bp.C19.C19_smartShift_masked", "Bp.C19.C19_bool_byte", "Bp.C19.C19_storage_smallest",
                      "Bp.C19.C19_sign_pair", "Bp.C19.C19_sign_needed"],
         "explore": _c19,
+        "wire_corpus": True,
         "correspondence": "generated .go text parsed structurally vs the abstract schema and vs the Python module's processor tree",
         "rule": "generated schemas (nesting, aliases, enums, arrays, extensible markers); per message: struct fields "
                 "(order, Go types, JSON tags), size constants (Go = Python = ceil(N/8)), processor tree resolved through "
